@@ -318,7 +318,7 @@ impl Shape {
 
 pub const RES_POOL: [Res; 12] = POOL;
 /// the typed family (real.rs `typed!`): what the k-th member REALLY borrows (static resource types, dynamic id 0): (shared, exclusive)
-pub const TYPED: [(&[u8], &[u8]); 6] = [(&[], &[0]), (&[1], &[2]), (&[1], &[3]), (&[0], &[1]), (&[2], &[3]), (&[0, 3], &[])];
+pub const TYPED: [(&[u8], &[u8]); 8] = [(&[], &[0]), (&[1], &[2]), (&[1], &[3]), (&[0], &[1]), (&[2], &[3]), (&[0, 3], &[]), (&[], &[2]), (&[3], &[])];
 pub fn typed_access(zst: u8) -> Option<(Vec<Res>, Vec<Res>)> {
     let k = (zst as usize).checked_sub(10)?;
     let t = TYPED.get(k)?;
